@@ -300,11 +300,11 @@ struct PHist {
                 model.AddString(d);
                 st.note("import(", form >= 2 ? (active ? "ranged,active" : "ranged") : "single-key", form == 3 ? ",hardened" : "", ")");
             } else if (kind == 13) {
-                const unsigned what = s.range<unsigned>(0, 3);
+                // (the avoid_reuse flag is not toggled: setwalletflag documents that a rescan is needed afterwards, otherwise the wallet marks
+                // used destinations lazily whenever it re-processes a transaction, e.g. mempool transactions at load time)
+                const unsigned what = s.range<unsigned>(2, 3);
                 begin_op("setting", false);
-                if (what == 0) ws.wallet().SetWalletFlag(wallet::WALLET_FLAG_AVOID_REUSE);
-                else if (what == 1) ws.wallet().UnsetWalletFlag(wallet::WALLET_FLAG_AVOID_REUSE);
-                else if (!own_dests.empty()) {
+                if (!own_dests.empty()) {
                     LOCK(ws.wallet().cs_wallet);
                     wallet::WalletBatch batch(ws.wallet().GetDatabase());
                     const CTxDestination& dest = own_dests[s.index(own_dests.size())];
@@ -391,8 +391,8 @@ VERIF_TARGET(c43_wallet_persist, nullptr, 48, 700,
              "histories (4-30 ops, always ending with a restart) on an on-disk SQLite descriptor wallet attached to a regtest node (fixed descriptors or "
              "generated seed): new receive/change addresses with labels, receive from foreign coins (to handed-out and look-ahead scripts), blocks (also "
              "paying the wallet), wallet sends with comments (broadcast or not, then abandoned), labels for own/foreign addresses, address-book deletion, "
-             "LockCoin persistent/memory-only, UnlockCoin/UnlockAllCoins, descriptor imports (single-key with label, ranged, active), avoid_reuse flag / "
-             "previously-spent / receive requests, RemoveTxs, encrypt / lock / unlock / change passphrase, TopUpKeyPool, reorg of the tip, mock-time jumps, "
+             "LockCoin persistent/memory-only, UnlockCoin/UnlockAllCoins, descriptor imports (single-key with label, ranged, hardened, active), previously-spent marks / "
+             "receive requests, RemoveTxs, encrypt / lock / unlock / change passphrase, TopUpKeyPool, reorg of the tip, mock-time jumps, "
              "clean unload + reload. Oracle at every restart: canonical dump (descriptors incl. range/next index/script-set hash/private strings, master keys, "
              "transactions with state/time/order/comments, address book incl. purposes/used/requests, persistent locks, flags, best block) before == after; "
              "persistent locks == harness model. non-trivial = restart with >=1 wallet transaction, >=5 mutating ops of >=4 kinds; distinct = op-kind sequence")
